@@ -112,7 +112,45 @@ def r1_temperature_formulas(ctx):
     ctx.floor("temperature formulas", n, 10)
 
 
+def _claim_is_final(ctx, cname, ist):
+    """Once a pair of units touches one of the type's own (affine / logarithmic) units, the type answers for it: it
+    sets a conversion or refuses with an error.  Declining (`return False`) on such a path hands the pair to the
+    standard type, which converts the affine unit as if it were its multiplicative base unit."""
+    from ..flowexpr import paths
+    what = "a pair touching the type's own units is converted by this type or refused - never handed on to the standard type"
+    try:
+        ps = paths(ist)
+    except AnalysisError as e:
+        ctx.unrecognised(U, f"{cname}._istype", what, str(e))
+        return
+    n = 0
+    for q in ps:
+        claims = [t for t in q.tests() if isinstance(t.resolved, ast.AST) and "self.process" in norm(t.resolved)]
+        if not claims:
+            continue
+        t0 = claims[0]
+        neg = isinstance(t0.resolved, ast.UnaryOp) and isinstance(t0.resolved.op, ast.Not)
+        claimed = (t0.extra is True) != neg
+        if not claimed:
+            continue
+        n += 1
+        rets = [e for e in q.events if e.kind == "return"]
+        declines = bool(rets) and isinstance(rets[-1].resolved, ast.Constant) and rets[-1].resolved.value is False
+        sets = any(e.kind == "store" and e.extra == "self.conversion" for e in q.events)
+        if q.status == "raise" or (sets and not declines):
+            ctx.holds(U, f"{cname}._istype", what, detail=[f"{norm(t.resolved)[:50]} is {t.extra}" for t in q.tests()])
+        elif declines:
+            ctx.violated(U, f"{cname}._istype", what, detail={"declines under": [f"{norm(t.resolved)[:70]} is {t.extra}" for t in q.tests()]},
+                         expected="raise (only simple units can be converted) or set self.conversion")
+        else:
+            ctx.form(False, U, f"{cname}._istype", what, detail=[f"{norm(t.resolved)[:50]} is {t.extra}" for t in q.tests()])
+    ctx.floor(f"claimed paths of {cname}._istype", n, 2, file=U)
+
+
 def r2_temperature_complete(ctx):
+    K.conversion_roles(ctx)          # the converted number and its source units come from the same object (shared)
+    from . import C03 as _C03
+    _C03.r1_atom_parser(ctx)         # `including prefixed kelvin` / the dB family: prefix and unit symbol are cut by the atom parser (shared with C03.R1)
     mod, c = _tclass(ctx, "TemperatureUnitType")
     process = _class_literal(ctx, "TemperatureUnitType", "process")
     cols, rows = unit_standard(ctx.repo)
@@ -131,6 +169,7 @@ def r2_temperature_complete(ctx):
         ctx.unrecognised(U, "TemperatureUnitType._istype", "dispatch by unit names", "claim/dispatch idiom not recognised")
         return
     ctx.holds(U, "TemperatureUnitType._istype", "claims pairs touching `process` and dispatches by (from,to) unit name")
+    _claim_is_final(ctx, "TemperatureUnitType", ist)
     n = 0
     for X in temps:
         for Y in temps:
